@@ -53,6 +53,7 @@ class PathNode:
         filename: str = None,
         path: str = None,
         length: int = None,
+        pad: bool = False,
     ):
         """
         Hold file information that contributes to the contents of torrent.
@@ -78,6 +79,7 @@ class PathNode:
         self.length = length
         self.filename = filename
         self.full = full
+        self.pad = pad
 
     def get_part(self, path: str) -> bytes:
         """
@@ -173,6 +175,12 @@ class PieceNode:
                 yield chosen
             return
         pathnode = paths[0]
+        if pathnode.pad:
+            stop = len(pathnode) if pathnode.stop == -1 else pathnode.stop
+            zeros = bytes(stop - (pathnode.start or 0))
+            yield from self._find_matches(filemap, paths[1:], data + zeros,
+                                          chosen + ([], ))
+            return
         # candidates holding the same bytes for this piece are
         # interchangeable: one branch per distinct content
         groups = {}
@@ -279,14 +287,20 @@ class Metadata(CbMixin, ProgMixin):
             for f in info["files"]:
                 path = f["path"]
                 full = os.path.join(self.name, *path)
+                # BEP 47 padding entries stand for zero bytes, never a file
+                attr = f.get("attr", "")
+                if isinstance(attr, bytes):
+                    attr = attr.decode("utf-8", "ignore")
                 self.files.append({
                     "path": Path(full).parent,
                     "filename": path[-1],
                     "full": full,
                     "length": f["length"],
+                    "pad": "p" in attr,
                 })
                 self.length += f["length"]
-                self.filenames.add(path[-1])
+                if "p" not in attr:
+                    self.filenames.add(path[-1])
         # never follow a metafile out of the destination directory
         for entry in self.files:
             full = str(entry["full"])
@@ -390,7 +404,7 @@ class Metadata(CbMixin, ProgMixin):
             self._update()
             for i, pathnode in enumerate(piece_node.paths):
                 locs = [loc for match in matches for loc in match[i]]
-                if not locs:
+                if not locs or pathnode.pad:
                     continue
                 known = verified.get(pathnode.full, locs)
                 verified[pathnode.full] = [loc for loc in known if loc in locs]
